@@ -118,7 +118,10 @@ func vh_C14_L2_deferred_reset() {
 	cum = a.peerLastTSN()
 	last := nondetU32()
 	vassume(last-cum != 1<<31 && last-cum < 1<<30 || cum-last < 1<<30)
-	req := &paramOutgoingResetRequest{reconfigRequestSequenceNumber: nondetU32(), senderLastTSN: last, streamIdentifiers: []uint16{4}}
+	// the request may name further streams the receiver has never seen (opened by the peer but
+	// never written on), before or after the one it knows
+	ids := [][]uint16{{4}, {9, 4}, {4, 9}, {9, 4, 11}}[vPick(4)]
+	req := &paramOutgoingResetRequest{reconfigRequestSequenceNumber: nondetU32(), senderLastTSN: last, streamIdentifiers: ids}
 	s4 := a.streams[4]
 	vassert(vDeliver(a, &chunkReconfig{paramA: req}) == nil, "RECONFIG is never fatal")
 	due := !vBefore(cum, last) // senderLastTSN <= cumulative TSN (serially)
